@@ -483,6 +483,13 @@ def contract_silent(model: ModelStorage, op: dict, env: Env) -> bool:
     """True when the documented contract does not say what the op does in the model's
     current state (so backends may legitimately differ and the op is not issued)."""
     k = op["op"]
+    if k == "create_new_trial" and op.get("template") and op["template"].get("values") is not None:
+        # a template whose number of values differs from the study's number of objectives
+        # (possible here through a stale study handle whose id was re-used by SQLite)
+        sid = _rid(env, op["study"])
+        st = model.studies.get(env.msid(sid)) if sid is not None else None
+        if st is not None and len(op["template"]["values"]) != len(st["directions"]):
+            return True
     if "trial" not in op:
         return False
     tid = _rid(env, op["trial"])
@@ -499,6 +506,9 @@ def contract_silent(model: ModelStorage, op: dict, env: Env) -> bool:
         if t["state"] == "WAITING":
             return True
     if k == "set_trial_state_values":
+        st = model.studies.get(t["sid"])
+        if op.get("values") is not None and st is not None and len(op["values"]) != len(st["directions"]):
+            return True
         if op["state"] == "RUNNING" and op.get("values") is not None:
             return True
         if op["state"] == "COMPLETE" and op.get("values") is None:
